@@ -485,3 +485,165 @@ Proof.
   - destruct (lay_inv_all a Ha t Hwf eq_refl [] 0 (Z.divide_0_r _)) as (H1 & _ & _ & _ & _ & H6 & _).
     split; [exact H1 | exact H6].
 Qed.
+
+(* ---------------------------------------------------------------------------------------------- optimize -r *)
+Lemma units_align_divides A l :
+  Forall (fun e => pow2 (e_align e) /\ (e_align e | A)) l -> (units_align l | A).
+Proof.
+  intro H. induction H as [|e r [Hp Hd] Hr IH]; simpl; [apply Z.divide_1_l|].
+  change (units_align (e :: r)) with (Z.max (e_align e) (units_align r)).
+  destruct (Z.max_spec (e_align e) (units_align r)) as [[_ ->]|[_ ->]]; auto.
+Qed.
+
+Lemma nonpad_Forall (P : entry -> Prop) l :
+  Forall (fun e => e_pad e = false -> P e) l -> Forall P (nonpad l).
+Proof.
+  intro H. induction H as [|e r He Hr IH]; simpl; [constructor|].
+  destruct (e_pad e) eqn:E; simpl; [exact IH | constructor; auto].
+Qed.
+
+Lemma total_nil : total [] = 0. Proof. reflexivity. Qed.
+
+(* optimize_not_larger, -r path: for EVERY order of the leaves that is sorted w.r.t. Less the re-padded layout is
+   not larger than the layout structlayout printed *)
+Theorem optimize_r_not_larger_std a fs l' :
+  arch_ok a -> wf_ty (TStruct fs) ->
+  let inp := layout std a (TStruct fs) in
+  Permutation (units_of true inp) l' -> sorted_by less_std l' ->
+  total (pad_units l') <= total inp.
+Proof.
+  intros Ha Hwf inp Hperm Hsort. unfold units_of in Hperm. destruct fs as [|g gs].
+  - unfold inp in *. rewrite layout_nil in *. simpl in Hperm. apply Permutation_nil in Hperm. subst. simpl. lia.
+  - destruct (lay_inv_all a Ha (TStruct (g :: gs)) Hwf eq_refl [] 0 (Z.divide_0_r _))
+      as (H1 & H2 & _ & H4 & H5 & _).
+    fold (layout std a (TStruct (g :: gs))) in *. fold inp in H1, H2, H4, H5. simpl in H1, H5.
+    assert (Htot : total inp = sizeof std a (TStruct (g :: gs))).
+    { unfold total. eapply tiles_end; eauto. }
+    rewrite Htot.
+    pose proof (sa_ok a _ Ha Hwf) as (Hs0 & Hpw & _ & Hdv). fold (sizeof std a (TStruct (g :: gs))) in *.
+    apply optimize_not_larger_abs with (units := nonpad inp); auto.
+    + apply nonpad_Forall. eapply Forall_impl; [|exact H4]. intros e He Hp.
+      destruct (He Hp) as (B & C & _ & _). split; auto.
+    + eapply Z.divide_trans; [|exact Hdv]. apply units_align_divides. apply nonpad_Forall.
+      eapply Forall_impl; [|exact H4]. intros e He Hp. destruct (He Hp) as (_ & C & _ & D). split; auto.
+    + apply rfits_rsum in H5. lia.
+Qed.
+
+(* ---------------------------------------------------------------------------------------------- combine *)
+(* the lines of one top-level field: padding, then lines of group i covering [flo, fhi) *)
+Definition chunk_ok (i : nat) (flo fhi fal : Z) (c : list entry) : Prop :=
+  exists pads body, c = pads ++ body /\ Forall (fun e => e_pad e = true) pads
+    /\ tiles body flo fhi /\ first_at body flo /\ Forall (leaf_wf fal) body
+    /\ Forall (fun e => e_pad e = false -> grp e = i) body.
+
+Inductive chunked (Ag total : Z) : nat -> nat -> Z -> list entry -> Prop :=
+| ch_nil i lo : lo <= total -> chunked Ag total 0 i lo []
+| ch_cons n i lo c rest flo fhi fal :
+    lo <= flo -> pow2 fal -> (fal | flo) -> (fal | fhi) -> (fal | Ag) ->
+    chunk_ok i flo fhi fal c -> chunked Ag total n (S i) fhi rest ->
+    chunked Ag total (S n) i lo (c ++ rest).
+
+Lemma combine_go_pads pads l cur :
+  Forall (fun e => e_pad e = true) pads -> combine_go cur (pads ++ l) = combine_go cur l.
+Proof. intro H. induction H as [|e r He Hr IH]; [reflexivity|]. simpl. rewrite He. exact IH. Qed.
+
+Lemma tiles_bounds l lo hi :
+  tiles l lo hi -> Forall (fun e => lo <= e_start e /\ e_end e = e_start e + e_size e /\ 0 <= e_size e /\ e_end e <= hi) l.
+Proof.
+  revert lo. induction l as [|e r IH]; intros lo H; [constructor|].
+  destruct H as (A & B & C & D). pose proof (tiles_le _ _ _ D). constructor; [lia|].
+  eapply Forall_impl; [|apply (IH _ D)]. intros x Hx. cbv beta in Hx. lia.
+Qed.
+
+(* the unit being built for group i inside [flo, fhi) *)
+Definition unit_inv (i : nat) (flo fhi fal : Z) (u : entry) : Prop :=
+  e_pad u = false /\ e_path u = [i] /\ e_start u = flo /\ e_start u <= e_end u /\ e_end u <= fhi
+  /\ e_size u = e_end u - e_start u /\ pow2 (e_align u) /\ (e_align u | fal).
+
+Lemma combine_go_same i flo fhi fal r : forall u rest,
+  0 < fal -> (fal | fhi) -> unit_inv i flo fhi fal u ->
+  Forall (fun e => flo <= e_start e /\ e_end e = e_start e + e_size e /\ 0 <= e_size e /\ e_end e <= fhi) r ->
+  Forall (leaf_wf fal) r -> Forall (fun e => e_pad e = false -> grp e = i) r ->
+  exists u', unit_inv i flo fhi fal u' /\ combine_go (Some u) (r ++ rest) = combine_go (Some u') rest.
+Proof.
+  induction r as [|e r IH]; intros u rest Hfal Hdhi Hu Hb Hw Hg.
+  - exists u. split; [exact Hu | reflexivity].
+  - inversion Hb as [|? ? Hbe Hbr]; subst. inversion Hw as [|? ? Hwe Hwr]; subst.
+    inversion Hg as [|? ? Hge Hgr]; subst. simpl. destruct (e_pad e) eqn:Ep; [apply IH; auto|].
+    destruct Hu as (U1 & U2 & U3 & U4 & U5 & U6 & U7 & U8).
+    assert (Hgu : grp u = i) by (unfold grp; rewrite U2; reflexivity).
+    rewrite (Hge eq_refl), Hgu, Nat.eqb_refl.
+    destruct (Hwe Ep) as (W1 & W2 & W3 & W4).
+    apply IH; auto. unfold unit_inv, extend_unit. simpl.
+    set (al := if e_align u <? e_align e then e_align e else e_align u).
+    assert (Hal : pow2 al /\ (al | fal)) by (unfold al; destruct (_ <? _); auto).
+    destruct Hal as [Hal1 Hal2]. pose proof (pow2_pos _ Hal1) as Hpos.
+    pose proof (align_up_ge (e_end e) al Hpos).
+    assert (align_up (e_end e) al <= fhi).
+    { apply align_up_least; auto; [lia|]. eapply Z.divide_trans; eauto. }
+    repeat split; auto; lia.
+Qed.
+
+Lemma unit_inv_fits i flo fhi fal u :
+  (fal | flo) -> (fal | fhi) -> unit_inv i flo fhi fal u -> unit_wf u /\ e_start u + rsize u <= fhi.
+Proof.
+  intros Hd1 Hd2 (U1 & U2 & U3 & U4 & U5 & U6 & U7 & U8). pose proof (pow2_pos _ U7) as Hpos.
+  split; [split; [lia | exact U7]|]. unfold rsize.
+  rewrite <- align_up_add by (auto; rewrite U3; eapply Z.divide_trans; eauto).
+  apply align_up_least; auto; [lia|]. eapply Z.divide_trans; eauto.
+Qed.
+
+Definition out_ok (Ag total : Z) (out : list entry) (lo0 : Z) : Prop :=
+  rfits out lo0 total /\ Forall (fun u => e_pad u = false /\ unit_wf u /\ (e_align u | Ag)) out.
+
+Lemma combine_chunked Ag total n i lo l :
+  chunked Ag total n i lo l ->
+  forall cur lo0,
+    match cur with
+    | None => lo0 <= lo
+    | Some u => e_pad u = false /\ unit_wf u /\ (e_align u | Ag) /\ lo0 <= e_start u /\ e_start u + rsize u <= lo
+                /\ (grp u < i)%nat
+    end ->
+    out_ok Ag total (combine_go cur l) lo0
+    /\ map e_path (combine_go cur l) =
+       (match cur with Some u => [e_path u] | None => [] end) ++ map (fun g => [g]) (seq i n).
+Proof.
+  intro H. induction H as [i lo Hlo | n i lo c rest flo fhi fal Hlo Hpw Hd1 Hd2 Hd3 Hc Hrest IH]; intros cur lo0 Hcur.
+  - simpl. destruct cur as [u|].
+    + destruct Hcur as (C1 & C2 & C3 & C4 & C5 & C6). split; [|reflexivity]. split.
+      * simpl. rewrite C1. split; [exact C4 | lia].
+      * constructor; [auto | constructor].
+    + split; [|reflexivity]. split; [simpl; lia | constructor].
+  - destruct Hc as (pads & body & -> & Hpads & Htb & (e & r & -> & Hep & Hes) & Hwf & Hgrp).
+    rewrite <- app_assoc. rewrite combine_go_pads by exact Hpads.
+    pose proof (tiles_bounds _ _ _ Htb) as Hb. pose proof (tiles_le _ _ _ Htb) as Hle.
+    inversion Hb as [|? ? Hbe Hbr]; subst. inversion Hwf as [|? ? Hwe Hwr]; subst.
+    inversion Hgrp as [|? ? Hge Hgr]; subst. destruct (Hwe Hep) as (W1 & W2 & W3 & W4).
+    assert (Hopen : unit_inv i (e_start e) fhi fal (open_unit e)).
+    { unfold unit_inv, open_unit. simpl. rewrite (Hge Hep). repeat split; auto; lia. }
+    pose proof (pow2_pos _ Hpw) as Hpos.
+    destruct (combine_go_same i (e_start e) fhi fal r (open_unit e) rest Hpos Hd2 Hopen Hbr Hwr Hgr)
+      as (U & HU & Heq).
+    destruct (unit_inv_fits _ _ _ _ U Hd1 Hd2 HU) as [HUwf HUfit].
+    destruct HU as (U1 & U2 & U3 & U4 & U5 & U6 & U7 & U8).
+    assert (HgU : grp U = i) by (unfold grp; rewrite U2; reflexivity).
+    assert (HcurU : e_pad U = false /\ unit_wf U /\ (e_align U | Ag) /\ e_start U <= e_start U
+                    /\ e_start U + rsize U <= fhi /\ (grp U < S i)%nat).
+    { repeat split; auto; try lia; try apply HUwf. eapply Z.divide_trans; eauto. }
+    destruct (IH (Some U) (e_start U) HcurU) as [[I1 I2] I3].
+    assert (Hstep : combine_go cur ((e :: r) ++ rest) =
+                    (match cur with Some u => [u] | None => [] end) ++ combine_go (Some U) rest).
+    { simpl. rewrite Hep. destruct cur as [u|].
+      - destruct Hcur as (_ & _ & _ & _ & _ & C6). rewrite (Hge Hep).
+        destruct (Nat.eqb_spec i (grp u)) as [E|E]; [lia|]. simpl. rewrite <- Heq. reflexivity.
+      - rewrite <- Heq. reflexivity. }
+    rewrite Hstep. destruct cur as [u|].
+    + destruct Hcur as (C1 & C2 & C3 & C4 & C5 & C6). split.
+      * split.
+        -- simpl. rewrite C1. split; [exact C4|]. eapply rfits_weaken; [| |exact I1]; lia.
+        -- constructor; auto.
+      * simpl. rewrite I3. simpl. rewrite U2. reflexivity.
+    + split.
+      * split; [|exact I2]. simpl. eapply rfits_weaken; [| |exact I1]; lia.
+      * simpl. rewrite I3. simpl. rewrite U2. reflexivity.
+Qed.
